@@ -1082,7 +1082,13 @@ class Interpreter(InterpreterBase, HoldableObject):
             subi.subproject_stack = self.subproject_stack + [(subp_name, for_machine)]
             current_active = self.active_projectname
             with mlog.nested_warnings():
-                subi.run()
+                try:
+                    subi.run()
+                except Exception:
+                    # The build files of a failing (optional) subproject have
+                    # been read as well: editing them must trigger a reconfigure.
+                    self.build_def_files.update(subi.get_build_def_files())
+                    raise
                 subi_warnings = mlog.get_warning_count()
             mlog.log('Subproject', mlog.bold(subp_name), 'finished.')
 
